@@ -11,7 +11,7 @@ for s in $seeds; do
   for id in $ids; do
     echo "$s $id"
   done
-done | xargs -P 4 -L 1 sh -c 'VERIF_SEED=$0 VERIF_OUT='"$out"'/$0_$1 /venv/bin/python vrun.py $1 --tier quick > '"$out"'/$0_$1.log 2>&1; echo "seed=$0 $1 exit=$?"' | grep -v "exit=0" && bad=1
+done | xargs -P ${SWEEP_JOBS:-4} -L 1 sh -c 'VERIF_SEED=$0 VERIF_OUT='"$out"'/$0_$1 /venv/bin/python vrun.py $1 --tier quick > '"$out"'/$0_$1.log 2>&1; echo "seed=$0 $1 exit=$?"' | grep -v "exit=0" && bad=1
 for f in "$out"/*.log; do grep -l "^VIOLATION\|^HARNESS" "$f" >/dev/null 2>&1 && { echo "== $f"; grep -A2 "^VIOLATION\|^HARNESS" "$f" | cut -c1-500 | head -20; }; done
 [ $bad = 0 ] && echo "all quiet: seeds [$seeds]"
 rm -rf "$out"
